@@ -25,6 +25,19 @@ type c18N struct {
 	M map[string]int
 }
 type c18Named int32
+type c18PS struct {
+	P *c18S
+	N int
+}
+type c18IS struct {
+	V interface{}
+	E error
+}
+type c18Deep struct {
+	In  c18PS
+	Arr [2]*int
+	F   func()
+}
 
 func c18f0() {}
 func c18f1() {}
@@ -82,6 +95,15 @@ func c18Groups() []c18Group {
 		{"ptrptr", T(pp1), []interface{}{pp1, pp1b}},
 		{"func", T(c18f0), []interface{}{c18f0, c18f1, nilF}},
 		{"chan", T(ch1), []interface{}{ch1, ch2, nilCh}},
+		{"ptrstruct", T(c18PS{}), []interface{}{c18PS{s1, 1}, c18PS{s1b, 1}, c18PS{s2, 1}, c18PS{s1, 2}, c18PS{nil, 1}, c18PS{nilS, 1}}},
+		{"ptr-ptrstruct", T(&c18PS{}), []interface{}{&c18PS{s1, 1}, &c18PS{s1b, 1}, &c18PS{s2, 1}, (*c18PS)(nil)}},
+		{"ptrarray", T([2]*int{}), []interface{}{[2]*int{&i1, &i2}, [2]*int{&i1b, &i2}, [2]*int{&i2, &i1}, [2]*int{nil, &i2}, [2]*int{}}},
+		{"ifacestruct", T(c18IS{}), []interface{}{c18IS{[]int{1}, nil}, c18IS{[]int{1}, nil}, c18IS{[]int{2}, nil}, c18IS{map[string]int{"a": 1}, e1}, c18IS{map[string]int{"a": 1}, e2},
+			c18IS{1, nil}, c18IS{"1", nil}, c18IS{nil, nil}, c18IS{s1, e1}, c18IS{s1b, e1}}},
+		{"ifacearray", T([2]interface{}{}), []interface{}{[2]interface{}{[]int{1}, 1}, [2]interface{}{[]int{1}, 1}, [2]interface{}{[]int{1}, 2}, [2]interface{}{nil, nil}, [2]interface{}{&i1, "x"}, [2]interface{}{&i1b, "x"}}},
+		{"deep", T(c18Deep{}), []interface{}{c18Deep{c18PS{s1, 1}, [2]*int{&i1, nil}, nil}, c18Deep{c18PS{s1b, 1}, [2]*int{&i1b, nil}, nil}, c18Deep{c18PS{s2, 1}, [2]*int{&i1, nil}, nil}, c18Deep{}}},
+		{"ptrslice", T([]*c18S{}), []interface{}{[]*c18S{s1, s2}, []*c18S{s1b, s2}, []*c18S{s2, s1}, []*c18S{nil}, []*c18S{}}},
+		{"ptrmap", T(map[int]*c18S{}), []interface{}{map[int]*c18S{1: s1}, map[int]*c18S{1: s1b}, map[int]*c18S{1: s2}, map[int]*c18S{2: s1}}},
 		{"iface-any", anyT, []interface{}{1, 1, 2, "a", "a", c18S{1, "a", 1.5}, c18S{1, "a", 1.5}, s1, s1b, nil, []int{1}, []int{1}, true}},
 		{"iface-error", errT, []interface{}{e1, e2, e1, nil}},
 	}
@@ -114,6 +136,35 @@ func goRef(a, b interface{}) bool {
 		return goRef(va.Elem().Interface(), vb.Elem().Interface())
 	}
 	return reflect.DeepEqual(a, b)
+}
+
+// c18SameDyn: same dynamic type (a nil is a value of every nilable type of the group)
+func c18SameDyn(a, b interface{}) bool {
+	if a == nil || b == nil {
+		return true
+	}
+	return reflect.TypeOf(a) == reflect.TypeOf(b)
+}
+
+func c18IsNum(a interface{}) bool {
+	if a == nil {
+		return false
+	}
+	switch reflect.TypeOf(a).Kind() {
+	case reflect.Int, reflect.Int8, reflect.Int16, reflect.Int32, reflect.Int64,
+		reflect.Uint, reflect.Uint8, reflect.Uint16, reflect.Uint32, reflect.Uint64, reflect.Uintptr,
+		reflect.Float32, reflect.Float64:
+		return true
+	}
+	return false
+}
+
+// c18Fmt: what fmt prints for a number (the library fact the model's hypothesis fmt_inj is about)
+func c18Fmt(a interface{}) string {
+	if !c18IsNum(a) {
+		return ""
+	}
+	return fmt.Sprintf("%v", reflect.ValueOf(a))
 }
 
 func c18Enc(v interface{}) string { return c18EncV(reflect.ValueOf(v), 0) }
@@ -259,6 +310,18 @@ func c18(args []string) int {
 		}
 		return ""
 	}
+	resolve2 := func(e arg.Expr, t reflect.Type) (pan string) {
+		defer func() {
+			if r := recover(); r != nil {
+				pan = "panic: " + fmt.Sprint(r)
+			}
+		}()
+		// a one-parameter target: the two-element alternative must be rejected by Resolve, not crash
+		if err := e.Resolve([]reflect.Type{t}, false); err != nil {
+			return "error"
+		}
+		return ""
+	}
 	for _, g := range groups {
 		for i, x := range g.vals {
 			for j, a := range g.vals {
@@ -283,8 +346,17 @@ func c18(args []string) int {
 				ey := arg.Equals(y)
 				resolve(ey, g.typ)
 				ry, _ := evalOnce(ey, g.typ, a)
+				// In with an alternative of another length first (must not stop the scan) and Any inside In
+				in2 := arg.In([]interface{}{x, x}, y, []interface{}{x})
+				ip2 := resolve2(in2, g.typ)
+				rin2, _ := evalOnce(in2, g.typ, a)
+				in3 := arg.In(y, arg.Any())
+				resolve(in3, g.typ)
+				rin3, _ := evalOnce(in3, g.typ, a)
+				r3, _ := evalOnce(e, g.typ, a) // after all the other evaluations
 				out.Put(map[string]interface{}{"kind": "pair", "group": g.name, "i": i, "j": j, "x": c18EncV(asParam(x, g.typ), 0), "a": c18EncV(asParam(a, g.typ), 0),
-					"eval": r1, "again": r2, "sym": rs, "any": ra, "in": rin, "eq_y": ry, "ref": goRef(x, a), "panic": p1, "resolve": rp + ip})
+					"y": c18EncV(asParam(y, g.typ), 0), "eval": r1, "again": r2, "later": r3, "sym": rs, "any": ra, "in": rin, "in_len": rin2, "in_any": rin3, "eq_y": ry, "ref": goRef(x, a),
+					"panic": p1, "resolve": rp + ip, "resolve_len": ip2, "dom": c18SameDyn(x, a) && c18SameDyn(y, a), "fx": c18Fmt(x), "fa": c18Fmt(a), "num": c18IsNum(x) && c18IsNum(a)})
 			}
 		}
 	}
